@@ -266,6 +266,23 @@ pub fn run(s: &dyn Subject, ctx: &Ctx) -> Option<DeclReport> {
                     rep.violate("fromstr-error-does-not-embed-message", raw.show(), display.clone(), msg.clone(), String::new());
                 }
             }
+            // ... and what serde errors embed (declarations deriving Deserialize)
+            for f in crate::subject::FMTS {
+                if let Some(docs) = s.docs_for(f, crate::subject::Pos::Bare, raw) {
+                    for d in docs {
+                        if let Some(crate::subject::DeObs::Err(e)) = s.de(f, crate::subject::Pos::Bare, &d) {
+                            // only errors that come from the validator (the reference newtype parses the document)
+                            if let Some(Ok(_)) = s.de_ref(f, crate::subject::Pos::Bare, &d) {
+                                rep.executions += 1;
+                                rep.guard("serde_embeds");
+                                if !e.contains(&msg) {
+                                    rep.violate("serde-error-does-not-embed-message", format!("{:?}:{}", f, String::from_utf8_lossy(&d)), e.clone(), msg.clone(), String::new());
+                                }
+                            }
+                        }
+                    }
+                }
+            }
             break;
         }
     }
